@@ -234,7 +234,12 @@ PROP = dict(
          "empty blocks, 6 coordinate families, negative / extreme references, out-of-range node numbers), foreign and "
          "malformed MEDIT binary files (versions 1..4, both byte orders, 13 mutations), mutated ASCII files (15 mutations: "
          "case, CRLF/tabs, junk after keywords, skipped sections, missing/extra words, invalid UTF-8, Unicode spaces, ...), "
-         "and format-sniffing buffers (10 families). distinct = distinct input value (write+read cases) or distinct byte "
+         "and format-sniffing buffers (10 families); plus, one per shard of 100 cases, HEADER-FIELD BOUNDARY cases whose values are "
+         "given by a formula of (seed,row,column) evaluated identically by the harness and by Run/RunC19.v (only sizes, seed and "
+         "(length,digest) summaries are in the case file; the judgement -- row lengths = criterion count, same values -- is made in "
+         "Coq): weight files of both element types with 255,256,257,4095,4096,8191,8192,8193,8197,16384,32767,32768,65535 criteria "
+         "(all 13 in every quick run) x 0..3 rows, 65535..65537 rows, partition files of 255..257 / 65535..65537 / 70000 ids, MEDIT "
+         "binary and ASCII meshes with 65535..65537 nodes or elements. distinct = distinct input value (write+read cases) or distinct byte "
          "string (read-only cases); non-trivial = at least 2 ids / at least one weight row / a mesh with nodes and at least "
          "one block / a byte string longer than the fixed header",
     class_names={
@@ -252,6 +257,12 @@ PROP = dict(
         90: "parse_binary on foreign bytes: Ok", 91: "parse_binary: error", 92: "parse_binary: panic",
         94: "parse_ascii on mutated text: Ok", 95: "parse_ascii: error", 96: "parse_ascii: panic",
         98: "from_reader on foreign bytes: Ok", 99: "from_reader: error", 100: "from_reader: panic",
+        120: "weights at a header-field boundary, in contract: read back Ok", 121: "same: error", 122: "same: panic",
+        124: "weights at a boundary, outside contract (no rows / 65536 criteria): Ok", 125: "same (outside): error",
+        126: "same (outside): panic",
+        128: "partition with 2^8 / 2^16-ish ids: read back Ok", 129: "partition boundary: error", 130: "partition boundary: panic",
+        132: "MEDIT binary with 2^16-ish nodes/elements: read back Ok", 133: "MEDIT binary boundary: error", 134: "MEDIT binary boundary: panic",
+        136: "MEDIT ASCII with 2^16-ish nodes/elements: read back Ok", 137: "MEDIT ASCII boundary: error", 138: "MEDIT ASCII boundary: panic",
         110: "sniff: neither", 111: "sniff: ascii", 112: "sniff: test_format_ascii panics (slice off a char boundary)",
         114: "sniff: binary", 115: "sniff: binary and ascii", 116: "sniff: binary, ascii test panics",
     },
@@ -273,6 +284,8 @@ PROP = dict(
         "BufReader the token/line readers see the same bytes (UTF-8 validation per chunk can only differ on non-ASCII input)",
     ],
     assumptions=[
+        "boundary cases: a 64-bit shift/add running digest stands for the compared byte strings / value lists (a collision would hide a "
+        "difference; lengths and row lengths are compared exactly)",
         "usize = u64 (the code's own TODO: compile_error when sizeof(usize) < sizeof(u64))",
         "weight arrays are rectangular with 1 <= criteria <= 65535; arrays without rows are a separate lemma "
         "(Integers([]) round-trips, Floats([]) is read back as Integers([]): judged outside the property, see docs/C19.md)",
